@@ -375,3 +375,25 @@ def run(chk):
     return chk.finish(rule="texts = token soups over the grammar's alphabet, mutations and splices of test_scripts/*.xr and the book's xray blocks, "
                            "bracket nestings up to depth 64 (balanced and not), numeric-literal spellings; escape/interner/number inputs over their own alphabets; "
                            "non-trivial = distinct generated (not shipped) inputs")
+
+
+def replay(path):
+    """re-run the input recorded in a replay file on the current tree and show what comes back"""
+    rec = json.load(open(path))
+    rp = rec.get("replay", {})
+    if "harness" in rp:
+        got = run_harness([rp["harness"]], per_req_timeout=30.0)[0]
+        shown = got.get("r", got) if isinstance(got, dict) else got
+    elif "src" in rp:
+        got = run_harness([{"op": "run", "src": rp["src"], "get": rp.get("get", [])}], per_req_timeout=30.0)[0]
+        shown = got.get("vals", got) if isinstance(got, dict) else got
+    else:
+        print("replay: nothing to run in", path, "(a broken proof obligation or correspondence, see 'what')")
+        print(rec.get("what"))
+        return 1
+    print("key     :", rec.get("key"))
+    print("what    :", rec.get("what"))
+    print("expected:", rp.get("expected"))
+    print("now     :", json.dumps(shown, ensure_ascii=False)[:2000])
+    bad = isinstance(got, dict) and any(k in got for k in ("panic", "abort", "hang"))
+    return 1 if bad else 0
